@@ -458,7 +458,8 @@ def check_signers(case):
         other = ["packages.conda", "packages"][case["k"] % 2]
         doc = {"info": {}, sec: {"a-1.0-0.tar.bz2": {"name": "a"}, "art\u00e9fact-1.0-0.conda": v}, other: {"z-1.0-0.conda": v}}
         with open(fn, "wb") as f:
-            f.write(canon(doc))
+            # the file as another tool wrote it: keys in reverse order, compact (the loaded dicts are NOT in sorted order)
+            f.write(json.dumps(G.reversed_keys(doc), separators=(",", ":")).encode() if case["k"] % 4 else canon(doc))
         if case["k"] % 3 == 0:
             import contextlib
             import io
